@@ -73,13 +73,22 @@ def _one_call(api, op, fin, payload, keykind, trace_on, rng, urandom_draws, writ
         ws = websocket.WebSocket()
     else:
         ks = KeySource(keykind, rng)
-        if rng.random() < 0.5:
+        how = rng.random()
+        if how < 0.4:
             ws = websocket.WebSocket(get_mask_key=ks)
-        else:
+        elif how < 0.7:
             ws = websocket.WebSocket()
             ws.set_mask_key(ks)
-    ws.sock = fake
-    ws.connected = True
+        else:
+            # the key source handed to create_connection() (the handshake runs over the same scripted transport)
+            sc = dict(sc, via_connect=True)
+            fake = FakeSock(sc, log.append)
+            ws = websocket.create_connection("ws://example.test/chat", socket=fake, get_mask_key=ks)
+            fake.frame_phase = True
+            fake.sent.clear()
+    if not getattr(ws, "connected", False):
+        ws.sock = fake
+        ws.connected = True
     foreign0 = sum(k.total for k in ALL_SOURCES if k is not ks)
     n0 = len(urandom_draws)
     nullh = None
@@ -212,6 +221,22 @@ def gen_calls(rng, tier):
                     for _ in range(k))
         api = rng.choice(["send", "send_text", "send_frame"])
         calls.append((api, 1, 1 if api != "send_frame" else rng.choice([0, 1]), s, rng.choice(kinds), i % 7 == 0))
+    # str subclasses whose str() is not their characters (an Enum member, an object with its own __str__): the characters go out
+    import enum
+
+    class Cmd(str, enum.Enum):
+        PING = "ping-\u00e9"
+
+    class Loud(str):
+        def __str__(self):
+            return "LOUD"
+
+        def __repr__(self):
+            return "LOUD"
+    for txt in (Cmd.PING, Loud("quiet \u2603")):
+        for api in ("send", "send_text", "send_frame"):
+            for op in ((1, 0) if api == "send_frame" else (1,)):
+                calls.append((api, op, 1, txt, rng.choice(kinds), False))
     # the continuation frames of a text message built from str, as the documentation of send_frame() shows
     for txt in ("Foo Bar", "grüße", "日本語", "a\U0001F600b", "é", ""):
         for fin in (0, 1):
